@@ -52,7 +52,7 @@ class Result:
             for kk in oc:
                 oc[kk] += agg["optcheck"][kk]
         if "passmodel" in agg:
-            pmm = self.extra.setdefault("optimizer_pass_model_tie", {"same": 0, "diff": 0, "changed": 0})
+            pmm = self.extra.setdefault("optimizer_pass_model_tie", {"same": 0, "diff": 0, "changed": 0, "outside_theorem_domain": 0})
             for kk in pmm:
                 pmm[kk] += agg["passmodel"][kk]
         for lab in agg["labels"]:
